@@ -277,3 +277,24 @@ M("c04-version", "C04", "flexstack/geonet/router.py",
 M("c04-learn-early", "C04", "flexstack/security/certificate_library.py",
   "                # The ticket is remembered by the caller once the message it signed has\n                # verified: a frame with a bad signature must leave no trace in the store.\n                return temp_certificate",
   "                self.add_authorization_ticket(temp_certificate)\n                return temp_certificate", "revert: ticket learnt before the message verifies")
+
+# ---------------------------------------------------------------- C10
+M("c10-max", "C10", "flexstack/facilities/ca_basic_service/cam_transmission_management.py",
+  "T_GEN_CAM_MAX = 1000      # T_GenCamMax [ms]", "T_GEN_CAM_MAX = 1500      # T_GenCamMax [ms]", "T_GenCamMax 1.5 s")
+M("c10-heading-thr", "C10", "flexstack/facilities/ca_basic_service/cam_transmission_management.py",
+  "            if diff > 4.0:\n                return True", "            if diff > 14.0:\n                return True", "heading trigger at 14 degrees")
+M("c10-heading-wrap", "C10", "flexstack/facilities/ca_basic_service/cam_transmission_management.py",
+  "            if diff > 180.0:\n                diff = 360.0 - diff\n            if diff > 4.0:", "            if diff > 4.0 and diff < 180.0:", "heading change across 0/360 not recognised")
+M("c10-lf", "C10", "flexstack/facilities/ca_basic_service/cam_transmission_management.py",
+  "T_GEN_CAM_LF_MS = 500 ", "T_GEN_CAM_LF_MS = 900 ", "LF container every 900 ms")
+M("c10-after-stop", "C10", "flexstack/facilities/ca_basic_service/cam_transmission_management.py",
+  "        self._active = False\n        if self._timer is not None:\n            self._timer.cancel()\n            self._timer = None", "        if self._timer is not None:\n            self._timer = None", "stop() neither deactivates nor cancels the timer")
+M("c10-gdt-now", "C10", "flexstack/facilities/ca_basic_service/cam_transmission_management.py",
+  "            gen_delta_time = GenerationDeltaTime.from_timestamp(\n                parser.parse(tpv[\"time\"]).timestamp()\n            )\n            self.cam[\"cam\"][\"generationDeltaTime\"]", "            gen_delta_time = GenerationDeltaTime.from_timestamp(\n                TimeService.time()\n            )\n            self.cam[\"cam\"][\"generationDeltaTime\"]", "generationDeltaTime taken from the clock instead of the report")
+M("c10-vam-min-revert", "C10", "flexstack/facilities/vru_awareness_service/vam_transmission_management.py",
+  "        if diff_time < vam_constants.T_GENVAMMIN:\n            return\n", "", "revert: VAM dynamics triggers below T_GenVamMin")
+M("c10-vam-lf", "C10", "flexstack/facilities/vru_awareness_service/vam_constants.py", "T_GENVAM_LFMIN = 2000", "T_GENVAM_LFMIN = 4000", "VAM LF container every 4 s")
+M("c10-vam-first", "C10", "flexstack/facilities/vru_awareness_service/vam_transmission_management.py",
+  "        if self.last_vam_generation_delta_time is None:\n            self.send_next_vam(vam=vam_to_send)\n            return", "        if self.last_vam_generation_delta_time is None:\n            self.last_vam_generation_delta_time = GenerationDeltaTime(msec=vam_to_send.vam['vam']['generationDeltaTime'])\n            return", "no VAM at the first report after activation")
+M("c10-speed-thr", "C10", "flexstack/facilities/ca_basic_service/cam_transmission_management.py",
+  "            if abs(tpv[\"speed\"] - self._last_cam_speed) > 0.5:", "            if abs(tpv[\"speed\"] - self._last_cam_speed) > 5:", "speed trigger at 5 m/s")
